@@ -1,5 +1,6 @@
 mod exec;
 mod gen_c07;
+mod gen_mem;
 mod util;
 
 fn main() {
@@ -13,6 +14,9 @@ fn main() {
             let mut out: Vec<String> = Vec::new();
             match prop.as_str() {
                 "C07" => gen_c07::gen(tier, seed, &mut out),
+                "C08" => gen_mem::gen_c08(tier, seed, &mut out),
+                "C09" => gen_mem::gen_c09(tier, seed, &mut out),
+                "C10" => gen_mem::gen_c10(tier, seed, &mut out),
                 _ => {
                     eprintln!("unknown property {}", prop);
                     std::process::exit(2);
